@@ -1,4 +1,6 @@
 import A5.Model.Hier
+import Std.Data.HashSet.Basic
+import Std.Data.HashSet.Lemmas
 /-! Model of `src/core/compact.rs` (after the `fix:` commits): `uncompact`, `hierarchy_key`,
 `compact`.  `compactV062` is a frozen copy of the pinned release's algorithm (raw-ID sort, no
 canonicalisation), kept only for the kernel-checked witnesses of the repaired defects. -/
@@ -60,6 +62,38 @@ def groupAt (cell : Nat) (rest : List Nat) : Outcome (Bool × Nat) :=
       else .ok (false, k)
     else .ok (false, k)
 
+/-- `n ≤ l.length`, decided by walking at most `n` cells (compiled twin of the length test) -/
+def hasAtLeast : Nat → List Nat → Bool
+  | 0, _ => true
+  | _ + 1, [] => false
+  | n + 1, _ :: xs => hasAtLeast n xs
+
+theorem hasAtLeast_eq : ∀ (n : Nat) (l : List Nat), hasAtLeast n l = decide (n ≤ l.length)
+  | 0, _ => by simp [hasAtLeast]
+  | _ + 1, [] => by simp [hasAtLeast]
+  | n + 1, _ :: xs => by simp [hasAtLeast, hasAtLeast_eq n xs]
+
+/-- compiled twin of `groupAt`: the same function, but the test `k ≤ rest.length + 1` looks at
+no more than `k - 1` cells instead of measuring the whole remaining list.  The compiler may use
+it only because of the proved equation `groupAt_eq_fast` (`@[csimp]`). -/
+def groupAtFast (cell : Nat) (rest : List Nat) : Outcome (Bool × Nat) :=
+  let res := getResolution cell
+  if res < 0 then .ok (false, 0)
+  else
+    let k := expectedChildren res
+    if hasAtLeast (k - 1) rest then
+      isFirstChild cell res >>= fun fc =>
+      if fc then
+        getStride res >>= fun stride =>
+        siblingsFollow cell stride (k - 1) 1 rest >>= fun all => .ok (all, k)
+      else .ok (false, k)
+    else .ok (false, k)
+
+@[csimp] theorem groupAt_eq_fast : @groupAt = @groupAtFast := by
+  funext cell rest
+  have h : ∀ k n : Nat, (k - 1 ≤ n) ↔ (k ≤ n + 1) := by omega
+  simp only [groupAt, groupAtFast, hasAtLeast_eq, decide_eq_true_eq, h]
+
 /-- one scan of the `while i < len` loop; `skip` = remaining members of a merged group -/
 def compactScan : List Nat → Nat → Outcome (List Nat × Bool)
   | [], _ => .ok ([], false)
@@ -87,6 +121,110 @@ is the unique key-sorted arrangement whatever the `HashSet` iteration order was)
 def sortByKey (key : Nat → Nat) (xs : List Nat) : List Nat :=
   xs.foldr (insertByKey key) []
 
+/-- compiled twin of `sortByKey`: core merge sort (`O(n log n)`) on the same order.  Equal to the
+insertion sort as a *function* (`sortByKey_eq_fast`), not merely up to permutation. -/
+def sortByKeyFast (key : Nat → Nat) (xs : List Nat) : List Nat :=
+  ((xs.map (fun x => (key x, x))).mergeSort (fun a b => decide (a.1 ≤ b.1))).map (·.2)
+
+/-- the keys are computed once per element (decorate / sort / undecorate), not once per comparison -/
+theorem sortByKeyFast_eq (key : Nat → Nat) (xs : List Nat) :
+    sortByKeyFast key xs = xs.mergeSort (fun a b => decide (key a ≤ key b)) := by
+  unfold sortByKeyFast
+  rw [List.map_mergeSort (s := fun a b => decide (key a ≤ key b))]
+  · rw [List.map_map]
+    exact congrArg (fun l => List.mergeSort l _) (List.map_id' xs)
+  · intro a ha b hb
+    obtain ⟨x, _, rfl⟩ := List.mem_map.mp ha
+    obtain ⟨y, _, rfl⟩ := List.mem_map.mp hb
+    rfl
+
+theorem insertByKey_append (key : Nat → Nat) (a : Nat) (l₂ : List Nat)
+    (h2 : ∀ b, b ∈ l₂ → key a ≤ key b) :
+    ∀ (l₁ : List Nat), (∀ b, b ∈ l₁ → ¬ key a ≤ key b) →
+      insertByKey key a (l₁ ++ l₂) = l₁ ++ a :: l₂
+  | [], _ => by
+    cases l₂ with
+    | nil => rfl
+    | cons y ys =>
+      show (if key a ≤ key y then a :: y :: ys else y :: insertByKey key a ys) = a :: y :: ys
+      rw [if_pos (h2 y List.mem_cons_self)]
+  | y :: ys, h1 => by
+    show (if key a ≤ key y then a :: y :: (ys ++ l₂) else y :: insertByKey key a (ys ++ l₂))
+      = y :: (ys ++ a :: l₂)
+    rw [if_neg (h1 y List.mem_cons_self),
+      insertByKey_append key a l₂ h2 ys (fun b hb => h1 b (List.mem_cons_of_mem _ hb))]
+
+@[csimp] theorem sortByKey_eq_fast : @sortByKey = @sortByKeyFast := by
+  funext key xs
+  have trans : ∀ a b c : Nat, decide (key a ≤ key b) = true → decide (key b ≤ key c) = true →
+      decide (key a ≤ key c) = true := by
+    intro a b c h1 h2
+    simp only [decide_eq_true_eq] at *
+    omega
+  have total : ∀ a b : Nat, (decide (key a ≤ key b) || decide (key b ≤ key a)) = true := by
+    intro a b
+    simp only [Bool.or_eq_true, decide_eq_true_eq]
+    omega
+  rw [sortByKeyFast_eq]
+  unfold sortByKey
+  induction xs with
+  | nil => simp
+  | cons a l ih =>
+    obtain ⟨l₁, l₂, h1, h2, h3⟩ := List.mergeSort_cons trans total a l
+    have hs := List.pairwise_mergeSort trans total (a :: l)
+    rw [h1] at hs
+    have hs2 := (List.pairwise_cons.mp (List.pairwise_append.mp hs).2.1).1
+    rw [List.foldr_cons, ih, h1, h2]
+    apply insertByKey_append
+    · intro b hb
+      simpa using hs2 b hb
+    · intro b hb
+      simpa using h3 b hb
+
+/-- hash used by `eraseDupsFast` (splitmix64 finaliser).  Cell IDs of coarse resolutions differ only
+in their top bits (40 or more trailing zero bits); the default `hash n = n mod 2^64` followed by the
+bucket folding of `Std.HashMap` then leaves only 2^16 distinct buckets, i.e. long chains.  The
+choice of hash function has no influence on the result (`eraseDupsFast_eq`). -/
+def cellHash (n : Nat) : UInt64 :=
+  let h := UInt64.ofNat n
+  let h := (h ^^^ (h >>> 30)) * 0xBF58476D1CE4E5B9
+  let h := (h ^^^ (h >>> 27)) * 0x94D049BB133111EB
+  h ^^^ (h >>> 31)
+
+/-- hash sets of cell IDs hashed with `cellHash` -/
+abbrev CellSet : Type := @Std.HashSet Nat _ ⟨cellHash⟩
+
+/-- first occurrences, in order, with a hash set of the elements seen so far (`O(n)` expected);
+equal to the quadratic `List.eraseDups` (`eraseDupsFast_eq`). -/
+def eraseDupsFast (xs : List Nat) : List Nat :=
+  loop xs (@Std.HashSet.emptyWithCapacity Nat _ ⟨cellHash⟩ xs.length) []
+where
+  loop : List Nat → CellSet → List Nat → List Nat
+  | [], _, acc => acc.reverse
+  | a :: as, s, acc =>
+    if s.contains a then loop as s acc else loop as (s.insert a) (a :: acc)
+
+theorem eraseDupsFast_loop_eq : ∀ (xs : List Nat) (s : CellSet) (acc : List Nat),
+    (∀ x, s.contains x = acc.contains x) →
+    eraseDupsFast.loop xs s acc = List.eraseDupsBy.loop (· == ·) xs acc
+  | [], _, _, _ => rfl
+  | a :: as, s, acc, h => by
+    unfold eraseDupsFast.loop List.eraseDupsBy.loop
+    rw [List.any_beq, ← h a]
+    cases hc : s.contains a with
+    | true =>
+      simp only [if_true]
+      exact eraseDupsFast_loop_eq as s acc h
+    | false =>
+      simp only [Bool.false_eq_true, if_false]
+      apply eraseDupsFast_loop_eq as (s.insert a) (a :: acc)
+      intro x
+      rw [Std.HashSet.contains_insert, List.contains_cons, h x, BEq.comm]
+
+theorem eraseDupsFast_eq (xs : List Nat) : eraseDupsFast xs = xs.eraseDups :=
+  eraseDupsFast_loop_eq xs _ [] (fun _ => by
+    rw [Std.HashSet.contains_emptyWithCapacity]; rfl)
+
 def compact (cells : List Nat) : Outcome (List Nat) :=
   if cells.isEmpty then .ok []
   else
@@ -100,5 +238,28 @@ def compactV062 (cells : List Nat) : Outcome (List Nat) :=
   else
     let uniq := cells.eraseDups
     compactLoop (uniq.length + 1) (sortByKey id uniq)
+
+/-- compiled twin of `compact`: identical except for the hash-set `eraseDupsFast` -/
+def compactFast (cells : List Nat) : Outcome (List Nat) :=
+  if cells.isEmpty then .ok []
+  else
+    mapOutcome (fun c => deserialize c >>= serialize) cells >>= fun canon =>
+    let uniq := eraseDupsFast canon
+    compactLoop (uniq.length + 1) (sortByKey hierarchyKey uniq)
+
+/-- compiled twin of `compactV062`: identical except for the hash-set `eraseDupsFast` -/
+def compactV062Fast (cells : List Nat) : Outcome (List Nat) :=
+  if cells.isEmpty then .ok []
+  else
+    let uniq := eraseDupsFast cells
+    compactLoop (uniq.length + 1) (sortByKey id uniq)
+
+@[csimp] theorem compact_eq_fast : @compact = @compactFast := by
+  funext cells
+  simp only [compact, compactFast, eraseDupsFast_eq]
+
+@[csimp] theorem compactV062_eq_fast : @compactV062 = @compactV062Fast := by
+  funext cells
+  simp only [compactV062, compactV062Fast, eraseDupsFast_eq]
 
 end A5
